@@ -129,7 +129,7 @@ func runsFor(prop, tier string) []run {
 			{"rf2-from-2rw", mk(2, 2, rw2), pick(5, 7), minutes(pickf(0.5, 3))},
 		}
 	case "C09":
-		alpha := []string{"Reg", "RegF", "Down", "Up", "Start", "StartWrong", "StartAll", "Restart"}
+		alpha := []string{"Reg", "RegF", "RegL", "Down", "Up", "Start", "StartWrong", "StartAll", "Restart"}
 		var rs []run
 		for _, a := range []struct {
 			name   string
